@@ -41,8 +41,11 @@ MergeOrd(os) ==
   ELSE "NONE"
 
 IsCls(j) == T[j].k = "cls"
-(* builtin helper classes (tuple, list, dict) have c = 0: only below object *)
-ClsSub(a, b) == IF T[a].c = 0 \/ T[b].c = 0
+(* builtin helper classes (tuple, list, dict, Sequence) have c = 0: below object, and tuple, list *)
+(* and str (class 9) below Sequence                                                              *)
+ClsSub(a, b) == IF T[b].c = 0 /\ T[b].builtin = "Sequence"
+                THEN (T[a].c = 0 /\ T[a].builtin \in {"tuple", "list", "Sequence"}) \/ T[a].c = 9
+                ELSE IF T[a].c = 0 \/ T[b].c = 0
                 THEN a = b \/ (T[b].c = 1)
                 ELSE T[b].c \in Anc[T[a].c]
 ClsOrder(a, b) == IF a = b \/ (ClsSub(a, b) /\ ClsSub(b, a)) THEN "SAME"
@@ -85,6 +88,10 @@ PairLaw12(a, b) ==
   ELSE IF T[a].k = "gen" /\ T[b].k = "gen" /\ T[a].origin = T[b].origin /\ Len(T[a].args) = Len(T[b].args)
           /\ O[a][b] # MergeOrd({O[T[a].args[q]][T[b].args[q]] : q \in DOMAIN T[a].args})
        THEN "generic_argwise"
+  \* different origins: the origins' order and the argument-wise comparison together
+  ELSE IF T[a].k = "gen" /\ T[b].k = "gen" /\ T[a].origin # T[b].origin /\ Len(T[a].args) = Len(T[b].args)
+          /\ O[a][b] # MergeOrd({O[T[a].origin][T[b].origin]} \cup {O[T[a].args[q]][T[b].args[q]] : q \in DOMAIN T[a].args})
+       THEN "generic_argwise.other_origin"
   ELSE IF T[a].k = "typeof" /\ T[b].k = "typeof" /\ O[a][b] # O[T[a].arg][T[b].arg] THEN "typeof_argwise"
   ELSE ""
 
